@@ -128,10 +128,12 @@ func runC19(c *fw.Ctx) {
 			c19F12(c)
 		case v.Replay.Kind == "F13":
 			c19F13(c, g)
+		case v.Replay.Kind == "rhp2-size":
+			c19Rhp2Sweep(c, g, c11GetConsts(c), model)
 		case strings.HasPrefix(v.Replay.Kind, "rhp2"):
 			c19Rhp2(c, g)
 		case strings.HasPrefix(v.Replay.Kind, "rhp3"):
-			c19Rhp3(c, g)
+			c19Rhp3(c, g, c11GetConsts(c))
 		case strings.HasPrefix(v.Replay.Kind, "gateway"):
 			c19Gateway(c, g, model)
 		default:
@@ -140,12 +142,14 @@ func runC19(c *fw.Ctx) {
 		c11Compare(c, model)
 		return
 	}
+	consts := c11GetConsts(c)
 	c19Rhp4(c, g, model)
 	c19F12(c)
 	c19F13(c, g)
 	c19Gateway(c, g, model)
 	c19Rhp2(c, g)
-	c19Rhp3(c, g)
+	c19Rhp2Sweep(c, g, consts, model)
+	c19Rhp3(c, g, consts)
 	c11Compare(c, model)
 }
 
@@ -225,7 +229,11 @@ func c19Rhp4(c *fw.Ctx, g *c11Gen, model *c11Model) {
 		}
 		// ---- error responses are delivered as that error
 		if isResp {
-			for _, dl := range []int{0, 1, 100, 1014 + maxLen - 1, 1014 + maxLen, 1014 + maxLen + 1, 1014 + maxLen + 50} {
+			dls := []int{0, 1, 100, 1014 + maxLen + 50}
+			for d := -16; d <= 16; d++ { // every description length around the exact bound
+				dls = append(dls, 1014+maxLen+d)
+			}
+			for _, dl := range dls {
 				if dl < 0 || dl > 1<<20 {
 					continue
 				}
@@ -571,6 +579,7 @@ func c19Gateway(c *fw.Ctx, g *c11Gen, model *c11Model) {
 	}
 	defer okT[0].Close()
 	defer okT[1].Close()
+	c19GatewaySweep(c, okT[0], okT[1])
 	// every Stream method for every RPC object over the established mux
 	for _, ct := range c11Types() {
 		if !strings.HasPrefix(ct.goName, "gateway.RPC") {
@@ -918,7 +927,7 @@ func errAsNetTimeout(err error) (bool, bool) {
 
 // ---------------------------------------------------------------- rhp/v3
 
-func c19Rhp3(c *fw.Ctx, g *c11Gen) {
+func c19Rhp3(c *fw.Ctx, g *c11Gen, k c11Consts) {
 	res := c.Res
 	rc, hc := net.Pipe()
 	defer rc.Close()
@@ -1002,4 +1011,5 @@ func c19Rhp3(c *fw.Ctx, g *c11Gen) {
 			break
 		}
 	}
+	c19Rhp3Sweep(c, g, k, rt, ht)
 }
